@@ -280,11 +280,24 @@ void ApiRun::retire_subtree(int cif, const MCont &gone, int except_cont_slot) {
     std::set<uint64_t> uids; std::function<void(const MCont &)> rec = [&](const MCont &c) { uids.insert(c.uid); for (auto &f : c.frames) rec(f); }; rec(gone);
     for (size_t i = 0; i < conts.size(); ++i) if (conts[i].h && conts[i].cif == cif && uids.count(conts[i].uid)) {
         if ((int) i == except_cont_slot) { for (size_t k = 0; k < loops.size(); ++k) if (loops[k].h && loops[k].via == (int) i) free_loop_slot((int) k); continue; }
+        // a few of these handles are kept (not used for anything else) to be tried again after later containers have been created:
+        // a handle on a container that no longer exists must never start to work again, e.g. by meeting a recycled identifier
+        if (zombies.size() < 6 && cifs[(size_t) cif].iter < 0 && !cfg.weights[O_PlantFail] && !cfg.enumerate_alloc) {
+            for (size_t k = 0; k < loops.size(); ++k) if (loops[k].h && loops[k].via == (int) i) { if (loops[k].locked) close_iter_of_loop((int) k); free_loop_slot((int) k); }
+            Zombie z; z.h = conts[i].h; z.cif = cif; zombies.push_back(z); conts[i].h = NULL; continue;
+        }
         free_cont_slot((int) i);
     }
     for (size_t k = 0; k < loops.size(); ++k) if (loops[k].h && loops[k].cif == cif && uids.count(loops[k].cont_uid)) free_loop_slot((int) k);
 }
 
+void ApiRun::probe_zombies(int cif, const char *when) {
+    for (auto &z : zombies) if (z.h && z.cif == cif) {
+        cif_loop_tp **ls = NULL; int r = cif_container_get_all_loops(z.h, &ls); ++g_stats.events; g_stats.inc("api.probe_stale_container_handle");
+        if (r == CIF_OK) { size_t n = 0; if (ls) { for (cif_loop_tp **q = ls; *q; ++q) { cif_loop_free(*q); ++n; } lib_free(ls); } violate(cfg.content_clause, "stale_container_handle_works", strprintf("a handle on a container destroyed earlier (through another handle) works again %s: cif_container_get_all_loops returns CIF_OK with %zu loop(s)", when, n)); }
+    }
+}
+void ApiRun::free_zombies(int cif) { for (auto &z : zombies) if (z.h && (cif < 0 || z.cif == cif)) { cif_container_free(z.h); z.h = NULL; } }
 // ------------------------------------------------------------------------------------------------ dumps and comparisons
 void ApiRun::check_dump(int cif, const char *when) {
     RCif &c = cifs[(size_t) cif];
@@ -346,6 +359,7 @@ void ApiRun::teardown() {
     for (auto &p : packets) if (p.p) { cif_packet_free(p.p); p.p = NULL; }
     for (size_t i = 0; i < loops.size(); ++i) free_loop_slot((int) i);
     for (size_t i = 0; i < conts.size(); ++i) if (conts[i].h) { cif_container_free(conts[i].h); conts[i].h = NULL; }
+    free_zombies(-1);
     for (auto &c : cifs) if (c.cif) { int rc = api("cif_destroy", [&]() { return cif_destroy(c.cif); }, A_NOENUM); c.cif = NULL; if (rc != CIF_OK) violate("destroy", rc_name(rc), strprintf("cif_destroy -> %s", rc_name(rc))); }
 }
 void ApiRun::check_leaks(long live0, long sq0) {
